@@ -485,7 +485,8 @@ def run(chk, tier, replay):
         for f, b in BITS.items():
             want = "1" if (host[b] == "1" and (mv >> b) & 1) else "0"
             if cpu[b] != want:
-                raise common.InfraError("hook H1: feature %s reported %s under mask %#x on host %s" % (f, cpu[b], mv, host))
+                raise common.InfraError("hook H1 (CARQUET_VERIF_CPU_CAP in src/simd/detect.c) missing or ineffective: feature %s "
+                                        "reported %s under mask %#x on host %s" % (f, cpu[b], mv, host))
         spec = spec_table_for(spec_cases, hostset, frozenset(feats))
         if spec is None:
             raise common.InfraError("Dispatch model has no table for host=%s mask=%s" % (sorted(hostset), sorted(feats)))
